@@ -728,7 +728,7 @@ func (p *Parser) parseTernaryExpression(condition ast.Expression) ast.Expression
 
 // containsTernary reports whether the given expression is, or has as one
 // of its operands, a ternary expression.
-func containsTernary(exp ast.Expression) bool {
+func containsTernary(exp ast.Node) bool {
 	switch node := exp.(type) {
 	case *ast.TernaryExpression:
 		return true
@@ -741,6 +741,9 @@ func containsTernary(exp ast.Expression) bool {
 	case *ast.AssignStatement:
 		return containsTernary(node.Value)
 	case *ast.CallExpression:
+		if containsTernary(node.Function) {
+			return true
+		}
 		for _, arg := range node.Arguments {
 			if containsTernary(arg) {
 				return true
@@ -758,6 +761,50 @@ func containsTernary(exp ast.Expression) bool {
 				return true
 			}
 		}
+
+		// The things with blocks are expressions too, so they may be
+		// (part of) a condition: look at all that is inside them.
+	case *ast.IfExpression:
+		return containsTernary(node.Condition) || containsTernary(node.Consequence) || containsTernary(node.Alternative)
+	case *ast.SwitchExpression:
+		if containsTernary(node.Value) {
+			return true
+		}
+		for _, choice := range node.Choices {
+			if containsTernary(choice) {
+				return true
+			}
+		}
+	case *ast.CaseExpression:
+		if node == nil {
+			return false
+		}
+		for _, e := range node.Expr {
+			if containsTernary(e) {
+				return true
+			}
+		}
+		return containsTernary(node.Block)
+	case *ast.WhileStatement:
+		return containsTernary(node.Condition) || containsTernary(node.Body)
+	case *ast.ForeachStatement:
+		return containsTernary(node.Value) || containsTernary(node.Body)
+	case *ast.FunctionDefinition:
+		return containsTernary(node.Body)
+	case *ast.BlockStatement:
+		// (An if without an else has no second block.)
+		if node == nil {
+			return false
+		}
+		for _, stmt := range node.Statements {
+			if containsTernary(stmt) {
+				return true
+			}
+		}
+	case *ast.ExpressionStatement:
+		return containsTernary(node.Expression)
+	case *ast.ReturnStatement:
+		return containsTernary(node.ReturnValue)
 	}
 	return false
 }
